@@ -712,6 +712,18 @@ val gray_scott :
   ops -> (field -> field) -> (field -> field -> field -> field) -> car -> car
   -> car -> field -> field -> field list
 
+val deriv_mode : ops -> nat -> car list -> car -> car list
+
+val poisson_mode : ops -> car -> car -> car
+
+val divm : ops -> car list -> car list -> car
+
+val lapm : ops -> car list -> car
+
+val leray_mode : ops -> car list -> car list -> car list
+
+val make_incompressible_mode : ops -> car list -> car list -> car list
+
 val aff : z -> z -> z -> z
 
 val affx : z -> z -> z -> z
@@ -741,5 +753,7 @@ val run_conv : q list -> q list
 val run_c04 : z -> q list -> q list
 
 val run_term : q list -> q list
+
+val run_ops : z -> q list -> q list
 
 val run : z -> q list -> q list
